@@ -27,8 +27,14 @@ def unesc(s: str) -> str:
     return s.encode("ascii").decode("unicode_escape")
 
 
+_GEN = re.compile(r"^verif_[a-z]+\d+_(m\d+)$")
+
+
 def cname(cls) -> str:
     mod = getattr(cls, "__module__", "")
+    m = _GEN.match(mod or "")
+    if m:                       # classes synthesised by harness.typeterms: short module tag
+        mod = m.group(1)
     qn = getattr(cls, "__qualname__", getattr(cls, "__name__", repr(cls)))
     if mod in ("builtins", "datetime", "decimal", "fractions", "uuid", "collections", "re", "pathlib"):
         return qn
@@ -62,7 +68,9 @@ def project(v, depth: int = 0):
     if v is None:
         return {"k": "none", "cls": "NoneType"}
     if isinstance(v, enum.Enum):
-        return {"k": "enum", "cls": c, "m": v.name, "val": project(v.value, depth + 1)}
+        return {"k": "enum", "cls": c, "sn": cls.__name__, "m": v.name,
+                "mix": "int" if isinstance(v, int) else "str" if isinstance(v, str) else "",
+                "val": project(v.value, depth + 1)}
     if isinstance(v, bool):
         return {"k": "bool", "cls": c, "s": str(bool(v))}
     if isinstance(v, int):
@@ -100,7 +108,7 @@ def project(v, depth: int = 0):
         return {"k": "td", "cls": c, "s": f"{v.days},{v.seconds},{v.microseconds}"}
     if isinstance(v, tuple) and hasattr(cls, "_fields"):
         return {"k": "obj", "cls": c, "flavour": "namedtuple",
-                "kv": [[f, project(x, depth + 1)] for f, x in zip(cls._fields, v)]}
+                "fv": [[f, project(x, depth + 1)] for f, x in zip(cls._fields, v)]}
     if isinstance(v, list):
         return {"k": "list", "cls": c, "xs": [project(x, depth + 1) for x in v]}
     if isinstance(v, tuple):
@@ -115,13 +123,13 @@ def project(v, depth: int = 0):
                 "kv": [[project(a, depth + 1), project(b, depth + 1)] for a, b in v.items()]}
     if dataclasses.is_dataclass(v) and not isinstance(v, type):
         return {"k": "obj", "cls": c, "flavour": "dataclass",
-                "kv": [[f.name, _getattr(v, f.name, depth)] for f in dataclasses.fields(v)]}
+                "fv": [[f.name, _getattr(v, f.name, depth)] for f in dataclasses.fields(v)]}
     if isinstance(v, (types.GeneratorType, collections.abc.Iterator)):
         return {"k": "iter", "cls": c}
     ann = _annotations(cls)
     if ann and not isinstance(v, type):
         return {"k": "obj", "cls": c, "flavour": "plain",
-                "kv": [[f, _getattr(v, f, depth)] for f in ann if not f.startswith("_")]}
+                "fv": [[f, _getattr(v, f, depth)] for f in ann if not f.startswith("_")]}
     return {"k": "opaque", "cls": c}
 
 
